@@ -25,8 +25,9 @@
    not); src_IPGlob_init = ipglob_new and src_IPGlob_setstate = ipglob_setstate (constructors: they start from unset slots; `self.glob = ..`
    is the setter _set_glob read from `glob = property(_get_glob, _set_glob, ..)`); src_IPGlob_getstate = ipglob_getstate (IPv4 object).
    super(IPGlob, self).__init__ / __getstate__ / __setstate__ (IPRange's methods) are NOT translated: hand-model symbols
-   py_iprange_init / py_iprange_getstate / py_iprange_setstate (Model/SrcPreludeGlob.v).  Hypothesis to_cidrs_wf: for IPv4 bounds the
-   translated iprange_to_cidrs returns IPv4 blocks inside the address space (as above, for all bounds).
+   py_iprange_init / py_iprange_getstate / py_iprange_setstate (Model/SrcPreludeGlob.v).  Hypothesis to_cidrs_wf: for valid ordered IPv4
+   bounds the translated iprange_to_cidrs returns IPv4 blocks inside the address space (as above; DISCHARGED from C05 in
+   Props/C17_src_closed.v, which restates these equalities without it); __setstate__: start <= end.
    A source edit that changes one of these functions changes the generated term and this theorem stops compiling.
    Nothing but the statement closed by `exact`, followed by Print Assumptions. *)
 From Coq Require Import String.
@@ -61,7 +62,8 @@ Theorem C17_source_tie :
      match set_glob src_to_cidrs (obj_of s e g) ipglob with (o', None) => Ok (st_of o') | (_, Some ex) => Raise ex end) /\
   (forall ipglob, to_cidrs_wf -> src_IPGlob_init ipglob = omap st_of (ipglob_new src_to_cidrs ipglob)) /\
   (forall s e g, fst s = 4 -> src_IPGlob_getstate s e g = ipglob_getstate (obj_of s e g)) /\
-  (forall st, to_cidrs_wf -> src_IPGlob_setstate st = omap st_of (ipglob_setstate src_to_cidrs st)).
+  (forall s e ver, s <= e -> to_cidrs_wf ->
+     src_IPGlob_setstate (s, e, ver) = omap st_of (ipglob_setstate src_to_cidrs (s, e, ver))).
 Proof. exact C17_tie_ok. Qed.
 Print Assumptions C17_source_tie.
 
